@@ -15,7 +15,8 @@ def extracted_types():
     for f in glob.glob(os.path.join(ROOT, 'units', '*.vx.rs')) + glob.glob(os.path.join(ROOT, 'units', 'parts', '*.vxp')):
         for line in open(f):
             m = re.match(r'\s*//@type\s+(\w+)\s+in\s+(\S+)', line)
-            if m:
+            # //@type also extracts module-level constants (ALL_CAPS): nothing is derived for those
+            if m and not re.fullmatch(r'[A-Z][A-Z0-9_]*', m.group(1)):
                 out.add((m.group(1), m.group(2)))
     return sorted(out)
 
